@@ -84,6 +84,29 @@ FILES = [
      {"Glob", "globWithLimit", "cleanGlobPath", "cleanGlobPathWindows", "glob", "hasMeta"}),   # file access
 ]
 
+# Self-test of the retargeted package: the toolchain's OWN tests of the lexical functions (tables with their
+# Windows halves and the Test functions that select them through runtime.GOOS), copied by the same machinery
+# into an external test package and run by `go test` on every C13 run (selftest()).  Here DROP is "everything
+# not named": the test files are mostly about the file system.
+TEST_FILES = [
+    ("path/filepath/path_test.go", "go_path_test.go", "winfp_test",
+     {"PathTest", "cleantests", "nonwincleantests", "wincleantests", "TestClean",
+      "sep", "slashtests", "TestFromAndToSlash",
+      "SplitListTest", "lsep", "splitlisttests", "winsplitlisttests", "TestSplitList",
+      "SplitTest", "unixsplittests", "winsplittests", "TestSplit",
+      "JoinTest", "jointests", "nonwinjointests", "winjointests", "TestJoin",
+      "ExtTest", "exttests", "TestExt",
+      "basetests", "winbasetests", "TestBase",
+      "dirtests", "nonwindirtests", "windirtests", "TestDir",
+      "IsAbsTest", "isabstests", "winisabstests", "TestIsAbs",
+      "RelTests", "reltests", "winreltests", "TestRel",
+      "VolumeNameTest", "volumenametests", "TestVolumeName"}, None),
+    ("path/filepath/match_test.go", "go_match_test.go", "winfp_test",
+     {"MatchTest", "matchTests", "errp", "TestMatch"}, None),
+]
+TEST_IMPORT_MAP = {"path/filepath": MODULE + "/winfp", "runtime": MODULE + "/winfp/shim/runtime"}
+TEST_IMPORT_OK = {"errors", "fmt", "reflect", "slices", "strings", "testing"}
+
 # (output file, declaration, exact old text, new text): old must occur exactly once in the declaration
 EDITS = [
     ("path.go", "Rel", "\n\tfor {\n",
@@ -119,7 +142,12 @@ func IsPathSeparator(c uint8) bool {
     "shim/runtime/runtime.go": '''// Package runtime binds runtime.GOOS to the emulated operating system.
 package runtime
 
+import "runtime"
+
 const GOOS = "windows"
+
+// GOMAXPROCS is the real one (used by the toolchain's TestClean only).
+func GOMAXPROCS(n int) int { return runtime.GOMAXPROCS(n) }
 ''',
     "shim/syscall/syscall.go": '''// Package syscall stands in for the one system call the lexical functions reach: GetFullPathName, used by
 // filepathlite.isReservedName to ask the running Windows version whether a device name WITH an extension
@@ -252,7 +280,8 @@ def split_decls(src, path):
         if DECL_START.match(l):
             block = [l]
             # single-line declaration or block up to the closing line in column 0
-            opens = l.rstrip().endswith("{") or l.rstrip().endswith("(")
+            l0 = re.sub(r'([{(])\s*//.*$', r'\1', l).rstrip()   # `func T(t *testing.T) { // comment`
+            opens = l0.endswith("{") or l0.endswith("(")
             if opens:
                 i += 1
                 while i < n and lines[i] not in ("}", ")"):
@@ -279,13 +308,16 @@ def split_decls(src, path):
 
 def import_ident(spec):
     """identifier under which an import spec is referenced."""
-    m = re.match(r'^(?:(\w+)\s+)?"([^"]+)"$', spec)
+    m = re.match(r'^(?:(\w+|\.)\s+)?"([^"]+)"$', spec)
     if not m:
         raise TranslateError("unparsable import spec %r" % spec)
     return (m.group(1) or m.group(2).rsplit("/", 1)[-1]), m.group(2)
 
 
-def translate_file(root, rel, outrel, pkg, keep, drop):
+def translate_file(root, rel, outrel, pkg, keep, drop, imap=None, iok=None):
+    """drop=None: every declaration not in keep is dropped (test files)."""
+    imap = IMPORT_MAP if imap is None else imap
+    iok = IMPORT_OK if iok is None else iok
     path = os.path.join(root, "src", rel)
     try:
         src = open(path).read()
@@ -306,12 +338,12 @@ def translate_file(root, rel, outrel, pkg, keep, drop):
                     text = text.replace(old, new)
                     edits_done.add((efile, edecl))
             body.append(text)
-        elif nm in drop:
+        elif drop is None or nm in drop:
             continue
         else:
             raise TranslateError("%s declares %s, which the translator does not know (neither kept nor dropped): "
                                  "the toolchain differs from the one the translator was written for" % (rel, nm))
-    missing = (keep | drop) - seen
+    missing = (keep | (drop or set())) - seen
     if missing:
         raise TranslateError("%s no longer declares %s" % (rel, ", ".join(sorted(missing))))
     for (efile, edecl, _, _) in EDITS:
@@ -324,11 +356,14 @@ def translate_file(root, rel, outrel, pkg, keep, drop):
     specs = []
     for sp in imports:
         ident, ipath = import_ident(sp)
-        if not re.search(r'\b%s\.' % re.escape(ident), bare):
+        if ident != "." and not re.search(r'\b%s\.' % re.escape(ident), bare):
             continue
-        if ipath in IMPORT_MAP:
-            specs.append('\t"%s"' % IMPORT_MAP[ipath])
-        elif ipath in IMPORT_OK:
+        if ipath in imap:
+            # the identifier under which the bodies refer to the package stays the original one
+            new = imap[ipath]
+            alias = "" if new.rsplit("/", 1)[-1] == ident else ident + " "
+            specs.append('\t%s"%s"' % (alias, new))
+        elif ipath in iok:
             specs.append('\t"%s"' % ipath)
         else:
             raise TranslateError("%s imports %s, for which the translator has no rule" % (rel, ipath))
@@ -342,12 +377,28 @@ def translate_file(root, rel, outrel, pkg, keep, drop):
         out += "import (\n" + "\n".join(sorted(specs)) + "\n)\n\n"
     out += code + "\n"
     INFO.setdefault("sources", {})[rel] = {"sha256": hashlib.sha256(src.encode()).hexdigest(),
-                                            "kept": sorted(seen & keep), "dropped": sorted(seen & drop)}
+                                            "kept": sorted(seen & keep),
+                                            "dropped": sorted(seen & drop) if drop is not None else "all other declarations (%d)" % len(seen - keep)}
     return outrel, out
 
 
-def expected_files():
-    return set(f[1] for f in FILES) | set(SHIMS)
+def selftest(timeout=600):
+    """Run the toolchain's own tests (TEST_FILES) against the retargeted package.  -> (ok, output)"""
+    env = dict(os.environ, GOFLAGS="-mod=mod", GOPROXY="off", GOSUMDB="off", GOTOOLCHAIN="local", CGO_ENABLED="0")
+    try:
+        p = subprocess.run(["go", "test", "-count=1", "-vet=off", "-v", "./winfp/"], cwd=HARNESS, env=env,
+                           stdout=subprocess.PIPE, stderr=subprocess.STDOUT, timeout=timeout)
+    except subprocess.TimeoutExpired:
+        return False, "go test ./winfp/ timed out"
+    out = p.stdout.decode("utf-8", "replace")
+    INFO["selftest"] = {"passed": re.findall(r'^--- PASS: (\w+)', out, flags=re.M),
+                        "failed": re.findall(r'^--- FAIL: (\w+)', out, flags=re.M),
+                        "skipped": re.findall(r'^--- SKIP: (\w+)', out, flags=re.M)}
+    want = sorted(n for f in TEST_FILES for n in f[3] if n.startswith("Test"))
+    missing = [n for n in want if n not in INFO["selftest"]["passed"]]
+    if missing:
+        out += "\nselftest: not passed: " + ", ".join(missing)
+    return p.returncode == 0 and not missing, out
 
 
 def prune(keepset):
@@ -373,6 +424,7 @@ def generate():
         except OSError:
             INFO["toolchain"] = "unknown"
         outs = dict(translate_file(root, *f) for f in FILES)
+        outs.update(dict(translate_file(root, *f, imap=TEST_IMPORT_MAP, iok=TEST_IMPORT_OK) for f in TEST_FILES))
         outs.update(SHIMS)
         for rel, content in outs.items():
             gen.write_if_changed(os.path.join(OUT, rel), content)
